@@ -387,7 +387,7 @@ static int run_op(const char *op)
     extra[0] = 0;
     if (0) {}
     /* ---------------- H layer ---------------- */
-    OP("hopen") { long f = I(1); NEED(f >= 0 && f < NF && fid[f] == FAIL); fid[f] = Hopen(fname(f), (int)I(2), (int16)I(3)); rc = fid[f] != FAIL; }
+    OP("hopen") { long f = I(1); NEED(f >= 0 && f < NF && fid[f] == FAIL); fid[f] = Hopen(fname(nt_ > 4 ? I(4) : f), (int)I(2), (int16)I(3)); rc = fid[f] != FAIL; }
     OP("hclose") { long f = I(1); NEED(SLOT(fid, f, NF)); if (vstarted[f]) { Vend(fid[f]); vstarted[f] = 0; } rc = Hclose(fid[f]) != FAIL; if (rc) fid[f] = FAIL; }
     OP("vstart") { long f = I(1); NEED(SLOT(fid, f, NF) && !vstarted[f]); rc = Vstart(fid[f]) != FAIL; if (rc) vstarted[f] = 1; }
     OP("vend") { long f = I(1); NEED(SLOT(fid, f, NF) && vstarted[f]); rc = Vend(fid[f]) != FAIL; vstarted[f] = 0; }
@@ -442,6 +442,8 @@ static int run_op(const char *op)
     OP("endbit") { long b = I(1); NEED(SLOT(bit, b, 4)); rc = Hendbitaccess(bit[b], 0) != FAIL; bit[b] = FAIL; }
     /* ---------------- Vgroup ---------------- */
     OP("vattach") { long g = I(1), f = I(2); NEED(g >= 0 && g < NA && vg[g] == FAIL && SLOT(fid, f, NF) && vstarted[f]); vg[g] = Vattach(fid[f], (int32)I(3), S_(4)); vgf[g] = (int)f; rc = vg[g] != FAIL; }
+    OP("vattachn") { long g = I(1), f = I(2); NEED(g >= 0 && g < NA && vg[g] == FAIL && SLOT(fid, f, NF) && vstarted[f]); int32 r = Vfind(fid[f], S_(3)); NEED(r > 0); vg[g] = Vattach(fid[f], r, S_(4)); vgf[g] = (int)f; rc = vg[g] != FAIL; }
+    OP("vdeleten") { long f = I(1); NEED(SLOT(fid, f, NF) && vstarted[f]); int32 r = Vfind(fid[f], S_(2)); NEED(r > 0); rc = Vdelete(fid[f], r) != FAIL; }
     OP("vdetach") { long g = I(1); NEED(SLOT(vg, g, NA)); rc = Vdetach(vg[g]) != FAIL; vg[g] = FAIL; }
     OP("vsetname") { long g = I(1); NEED(SLOT(vg, g, NA)); rc = Vsetname(vg[g], S_(2)) != FAIL; }
     OP("vsetclass") { long g = I(1); NEED(SLOT(vg, g, NA)); rc = Vsetclass(vg[g], S_(2)) != FAIL; }
@@ -458,6 +460,8 @@ static int run_op(const char *op)
     OP("vlone") { long f = I(1); NEED(SLOT(fid, f, NF) && vstarted[f]); int32 r[64]; int32 n = Vlone(fid[f], r, 64); rc = n != FAIL; sprintf(extra, " n=%ld", (long)n); }
     /* ---------------- Vdata ---------------- */
     OP("vsattach") { long s = I(1), f = I(2); NEED(s >= 0 && s < NA && vs[s] == FAIL && SLOT(fid, f, NF) && vstarted[f]); vs[s] = VSattach(fid[f], (int32)I(3), S_(4)); vsf[s] = (int)f; rc = vs[s] != FAIL; }
+    OP("vsattachn") { long s = I(1), f = I(2); NEED(s >= 0 && s < NA && vs[s] == FAIL && SLOT(fid, f, NF) && vstarted[f]); int32 r = VSfind(fid[f], S_(3)); NEED(r > 0); vs[s] = VSattach(fid[f], r, S_(4)); vsf[s] = (int)f; rc = vs[s] != FAIL; }
+    OP("vsdeleten") { long f = I(1); NEED(SLOT(fid, f, NF) && vstarted[f]); int32 r = VSfind(fid[f], S_(2)); NEED(r > 0); rc = VSdelete(fid[f], r) != FAIL; }
     OP("vsdetach") { long s = I(1); NEED(SLOT(vs, s, NA)); rc = VSdetach(vs[s]) != FAIL; vs[s] = FAIL; }
     OP("vsfdefine") { long s = I(1); NEED(SLOT(vs, s, NA)); rc = VSfdefine(vs[s], S_(2), NT(I(3)), (int32)I(4)) != FAIL; }
     OP("vssetfields") { long s = I(1); NEED(SLOT(vs, s, NA)); rc = VSsetfields(vs[s], S_(2)) != FAIL; }
